@@ -10,6 +10,12 @@ NOTE = ('Trusted: clang 14 front end (AST, constant evaluator, CFG), the bsfacts
         '+ the witnesses under /verif/witness. Only the structural clauses named in the level text are decided, never value-level equality.')
 
 CLAIMED = {
+    'C02': ('other',
+            'Structural necessary conditions of "no input can crash or exhaust the loader": no escape to std::terminate on load paths, no '
+            'input-driven recursion, no unclamped header-declared pre-sizing, every read of the MsgPack input buffer covered by a bounds guard '
+            'on every abstract path for all 256 first bytes (both readers and helpers), array end guards agree with IsEnd(). Hangs, arithmetic '
+            'UB and the CSV scanner are not decided.',
+            'may-throw closure + call-graph SCCs + taint-to-sink flow + guard domination by abstract interpretation over the first-byte domain', '§5 C02'),
     'C05': ('other',
             'Path-complete accounting on the clang CFG: in the MsgPack array/binary read scopes every normal path consumes exactly as many '
             'elements as it counts; DOM array scopes advance once per request; mismatch protocol tables for all 256 first bytes in both '
